@@ -2,33 +2,50 @@
 From V Require Import Common.Base Parsers.PrsOutcome Parsers.PrsJpeg Parsers.PrsBaseline
   Parsers.PrsProofsBase Parsers.PrsProofsJpeg.
 
-Definition BB : Z := maxAlloc.
 Ltac bsimpl := cbn [b_w b_h b_comps b_mcuw b_mcuh b_dc b_ac b_ri fst snd bc_id bc_h bc_v bc_tq bc_td bc_ta].
 
-Definition comp_ok (g : bool) (c : bcomp) : Prop :=
-  1 <= bc_h c <= 4 /\ 1 <= bc_v c <= 4 /\ (g = true -> 0 <= bc_td c <= 3).
-Definition BInv (g : bool) (st : bst) : Prop :=
-  0 <= b_w st <= 65535 /\ 0 <= b_h st <= 65535 /\ zlen (b_comps st) <= 3 /\ Forall (comp_ok g) (b_comps st) /\
-  0 <= b_mcuw st <= 32 /\ 0 <= b_mcuh st <= 32 /\ (b_comps st <> [] -> 8 <= b_mcuw st /\ 8 <= b_mcuh st).
-Lemma BInv0 : forall g, BInv g bst0.
-Proof. intros. unfold BInv, bst0, zlen; simpl. repeat split; try lia; try constructor; congruence. Qed.
-Definition bpost (g : bool) (bs : list Z) (x : bst * list Z) : Prop :=
-  BInv g (fst x) /\ bytes (snd x) /\ (length (snd x) <= length bs)%nat.
+Definition comp_ok (mh mv : Z) (c : bcomp) : Prop :=
+  1 <= bc_h c <= mh /\ 1 <= bc_v c <= mv /\ 0 <= bc_td c <= 3.
+Lemma comp_ok_mono : forall mh mv mh' mv' c, mh <= mh' -> mv <= mv' -> comp_ok mh mv c -> comp_ok mh' mv' c.
+Proof. intros mh mv mh' mv' c A B (X & Y & Z0). unfold comp_ok. lia. Qed.
 
-Lemma div_ceil_good : forall g a b, 0 <= a <= 65535 -> 8 <= b <= 32 ->
-  good g BB (fun q => 0 <= q <= 65535) (div_ceil a b).
+(* frameless: no SOF0 yet (w = h = 0, no components, MCU size 0); framed: MCU size 8*maxH x 8*maxV *)
+Definition BInv (st : bst) : Prop :=
+  0 <= b_w st <= 65535 /\ 0 <= b_h st <= 65535 /\ zlen (b_comps st) <= 3 /\
+  exists mh mv, 1 <= mh <= 4 /\ 1 <= mv <= 4 /\ Forall (comp_ok mh mv) (b_comps st) /\
+    (b_comps st <> [] -> b_mcuw st = mh * 8 /\ b_mcuh st = mv * 8 /\ 1 <= b_w st /\ 1 <= b_h st) /\
+    ((b_w st =? 0) && (b_h st =? 0) = true -> b_comps st = []).
+Lemma BInv0 : BInv bst0.
 Proof.
-  intros. unfold div_ceil. destruct (Z.eqb_spec b 0); [lia|].
-  apply good_ret. rewrite Z.quot_div_nonneg by lia. split; [apply Z.div_pos; lia|].
-  apply Z.div_le_upper_bound; [lia|]. nia.
+  unfold BInv, bst0, zlen; simpl. repeat split; try lia. exists 1, 1.
+  repeat split; try lia; try constructor; congruence.
+Qed.
+Definition bframeless (st : bst) : bool := (b_w st =? 0) && (b_h st =? 0).
+Definition bframeS (st : bst) : Z := b_w st * b_h st * zlen (b_comps st).
+Lemma bframeless_S : forall st, bframeless st = true -> bframeS st = 0.
+Proof. intros st H. unfold bframeless in H. apply andb_true_iff in H. destruct H as [H _]. apply Z.eqb_eq in H. unfold bframeS. rewrite H. lia. Qed.
+Definition bpostR (r : list Z) (x : bst * list Z) : Prop :=
+  BInv (fst x) /\ bytes (snd x) /\ (length (snd x) <= length r)%nat /\ snd x = seg_rest r.
+
+Ltac rsegB Hb := eapply good_bind; [eapply good_weaken; [apply good_read_segment'; exact Hb|lia|intros a Ha; exact Ha]|].
+
+(* DivCeil(a, b) for b = 8*m: the quotient q satisfies q*b <= a + b - 1 *)
+Lemma div_ceil_good : forall B a m, 0 <= a <= 65535 -> 1 <= m <= 4 ->
+  good true B (fun q => 0 <= q <= 65535 /\ q * (m * 8) <= a + m * 8 - 1) (div_ceil a (m * 8)).
+Proof.
+  intros. unfold div_ceil. destruct (Z.eqb_spec (m * 8) 0); [lia|].
+  apply good_ret. rewrite Z.quot_div_nonneg by lia.
+  assert (Hq : 0 <= (a + m * 8 - 1) / (m * 8)) by (apply Z.div_pos; lia).
+  assert (Hm : (m * 8) * ((a + m * 8 - 1) / (m * 8)) <= a + m * 8 - 1) by (apply Z.mul_div_le; lia).
+  split; [|lia]. split; [exact Hq|]. nia.
 Qed.
 
-Lemma bl_comps_good : forall g data k i acc mh mv, bytes data -> 0 <= i -> 6 + (i + Z.of_nat k) * 3 <= zlen data ->
-  Forall (comp_ok g) acc -> zlen acc = i -> 1 <= mh <= 4 -> 1 <= mv <= 4 ->
-  good g BB (fun x => let '(cs, a, b) := x in Forall (comp_ok g) cs /\ zlen cs = i + Z.of_nat k /\ 1 <= a <= 4 /\ 1 <= b <= 4)
-       (bl_comps g data k i acc mh mv).
+Lemma bl_comps_good : forall B data k i acc mh mv, bytes data -> 0 <= i -> 6 + (i + Z.of_nat k) * 3 <= zlen data ->
+  Forall (comp_ok mh mv) acc -> zlen acc = i -> 1 <= mh <= 4 -> 1 <= mv <= 4 ->
+  good true B (fun x => let '(cs, a, b) := x in Forall (comp_ok a b) cs /\ zlen cs = i + Z.of_nat k /\ 1 <= a <= 4 /\ 1 <= b <= 4)
+       (bl_comps data k i acc mh mv).
 Proof.
-  intros g data k. induction k as [|k IH]; intros i acc mh mv Hb Hi Hl Ha Hz Hmh Hmv; cbn [bl_comps].
+  intros B data k. induction k as [|k IH]; intros i acc mh mv Hb Hi Hl Ha Hz Hmh Hmv; cbn [bl_comps].
   - apply good_ret. repeat split; auto; lia.
   - eapply good_bind; [apply good_idx; lia|]. intros id _.
     eapply good_bind; [apply good_idx; lia|]. intros hv _.
@@ -37,53 +54,99 @@ Proof.
     apply orb_false_iff in E. destruct E as [E E4]. apply orb_false_iff in E. destruct E as [E E3].
     apply orb_false_iff in E. destruct E as [E1 E2].
     apply Z.leb_gt in E1. apply Z.ltb_ge in E2. apply Z.leb_gt in E3. apply Z.ltb_ge in E4.
-    destruct (g && (3 <? tq)); [apply good_err|].
-    eapply good_weaken; [apply IH; try lia; auto| |].
-    + apply Forall_app. split; [auto|]. constructor; [|constructor].
-      unfold comp_ok; simpl. repeat split; lia.
+    destruct (3 <? tq); [apply good_err|].
+    eapply good_weaken; [apply IH with (mh := Z.max mh (hv / 16)) (mv := Z.max mv (hv mod 16)); try lia; auto| |].
+    + apply Forall_app. split.
+      * eapply Forall_impl; [|exact Ha]. intros c Hc. eapply comp_ok_mono; [| |exact Hc]; lia.
+      * constructor; [|constructor]. unfold comp_ok; bsimpl. lia.
     + unfold zlen in *. rewrite app_length. simpl. lia.
     + apply Z.le_refl.
-    + intros [[cs a] b] (F & Z1 & A & B). repeat split; auto; lia.
+    + intros [[cs a] b] (F & Z1 & A & Bb). repeat split; auto; lia.
 Qed.
 
-Lemma bl_comp_allocs_good : forall g cs mc mr, Forall (comp_ok g) cs -> 0 <= mc <= 65535 -> 0 <= mr <= 65535 ->
-  good g BB (fun _ => True) (bl_comp_allocs cs mc mr).
+(* comp.data: (mcuCols*H)*(mcuRows*V)*64 bytes <= 63*w*h + 961 *)
+Lemma bl_comp_allocs_good : forall cs w h mh mv mc mr, Forall (comp_ok mh mv) cs ->
+  1 <= w <= 65535 -> 1 <= h <= 65535 -> 1 <= mh <= 4 -> 1 <= mv <= 4 ->
+  0 <= mc -> mc * (mh * 8) <= w + mh * 8 - 1 -> 0 <= mr -> mr * (mv * 8) <= h + mv * 8 - 1 ->
+  good true (63 * (w * h) + 961) (fun _ => True) (bl_comp_allocs cs mc mr).
 Proof.
-  intros g cs mc mr F Hc Hr. induction F as [|c r (H1 & H2 & _) Fr IH]; cbn [bl_comp_allocs]; [apply good_ret; exact I|].
-  assert (0 <= mc * bc_h c <= 65535 * 4) by nia. assert (0 <= mr * bc_v c <= 65535 * 4) by nia.
-  assert (0 <= mc * bc_h c * (mr * bc_v c) <= 65535 * 4 * (65535 * 4)) by nia.
-  eapply good_bind; [apply good_alloc with (post := fun _ => True); [lia|unfold BB|unfold BB|exact I]; rewrite maxAlloc_val; lia|].
+  intros cs w h mh mv mc mr F Hw Hh Hmh Hmv Hc0 Hc Hr0 Hr.
+  induction F as [|c r (H1 & H2 & _) Fr IH]; cbn [bl_comp_allocs]; [apply good_ret; exact I|].
+  assert (HX : 0 <= mc * bc_h c /\ 8 * (mc * bc_h c) <= w + 31) by nia.
+  assert (HY : 0 <= mr * bc_v c /\ 8 * (mr * bc_v c) <= h + 31) by nia.
+  assert (HP : 64 * (mc * bc_h c * (mr * bc_v c)) <= (w + 31) * (h + 31)) by nia.
+  assert (HQ : (w + 31) * (h + 31) <= 63 * (w * h) + 961) by nia.
+  assert (HW : w * h <= 65535 * 65535) by nia.
+  assert (H0 : 0 <= mc * bc_h c * (mr * bc_v c)) by nia.
+  eapply good_bind; [apply good_alloc with (post := fun _ => True); [lia|rewrite maxAlloc_val; lia|lia|exact I]|].
   intros _ _. exact IH.
 Qed.
 
-Lemma bl_sof_good : forall g st bs, bytes bs -> BInv g st -> good g BB (bpost g bs) (bl_parse_sof g st bs).
+Lemma seg_data_bytes : forall bs, bytes bs -> bytes (seg_data bs).
 Proof.
-  intros g st bs Hb HI. unfold bl_parse_sof.
-  eapply good_bind.
-  { eapply good_weaken; [apply good_read_segment; exact Hb|unfold BB; rewrite maxAlloc_val; lia|intros a Ha; exact Ha]. }
-  intros [d rest] (Hd & Hrest & Hdl & Hlen). cbn [fst snd] in *.
-  destruct (zlen d <? 6); [apply good_err|].
+  intros bs Hb. unfold seg_data. destruct bs as [|a [|b r']]; try constructor.
+  inversion Hb as [|? ? ? Hb']; subst. inversion Hb'; subst. apply bytes_firstn; auto.
+Qed.
+
+Lemma bl_sof_good : forall st bs, bytes bs -> BInv st ->
+  good true (64 * sof_S (seg_data bs) + 65536)
+       (fun x => bpostR bs x /\ bframeless st = true /\ bframeless (fst x) = false /\ bframeS (fst x) = sof_S (seg_data bs))
+       (bl_parse_sof st bs).
+Proof.
+  intros st bs Hb HI. unfold bl_parse_sof.
+  pose proof (sof_S_nonneg _ (seg_data_bytes bs Hb)) as HS0.
+  rsegB Hb.
+  intros [d rest] (Hd & Hrest & Hdl & Hlen & Ed & Er). cbn [fst snd] in *.
+  destruct (zlen d <? 6) eqn:E6; [apply good_err|].
+  destruct (negb (b_w st =? 0) || negb (b_h st =? 0)) eqn:Efr; [apply good_err|].
   destruct (negb (znth d 0 0 =? 8)); [apply good_err|].
   pose proof (be16j_bound d 1 Hd). pose proof (be16j_bound d 3 Hd).
-  destruct ((be16j d 3 <=? 0) || (be16j d 1 <=? 0)); [apply good_err|].
+  destruct ((be16j d 3 <=? 0) || (be16j d 1 <=? 0)) eqn:Ewh; [apply good_err|].
   destruct (negb ((znth d 5 0 =? 1) || (znth d 5 0 =? 3))) eqn:Ec; [apply good_err|].
   assert (Hc : 1 <= znth d 5 0 <= 3).
   { apply negb_false_iff in Ec. apply orb_true_iff in Ec. destruct Ec as [E|E]; apply Z.eqb_eq in E; lia. }
+  apply orb_false_iff in Ewh. destruct Ewh as [W1 W2]. apply Z.leb_gt in W1. apply Z.leb_gt in W2.
+  apply orb_false_iff in Efr. destruct Efr as [F1 F2]. apply negb_false_iff in F1. apply negb_false_iff in F2.
+  assert (ES : sof_S (seg_data bs) = be16j d 3 * be16j d 1 * znth d 5 0).
+  { rewrite <- Ed. unfold sof_S, be16j. rewrite E6. reflexivity. }
+  assert (Hwh : 1 <= be16j d 3 * be16j d 1) by nia.
+  assert (Hle : be16j d 3 * be16j d 1 <= sof_S (seg_data bs)) by (rewrite ES; nia).
   destruct (Z.ltb_spec (zlen d) (6 + znth d 5 0 * 3)); [apply good_err|].
-  eapply good_bind; [apply good_alloc with (post := fun _ => True); [lia|unfold BB|unfold BB|exact I]; rewrite maxAlloc_val; lia|].
+  eapply good_bind; [apply good_alloc with (post := fun _ => True); [lia|rewrite maxAlloc_val; lia|lia|exact I]|].
   intros _ _.
   eapply good_bind.
   { apply bl_comps_good; [auto|lia|rewrite Z2Nat.id by lia; lia|constructor|reflexivity|lia|lia]. }
   intros [[cs mh] mv] (F & Zc & A & B). rewrite Z2Nat.id in Zc by lia.
-  eapply good_bind; [apply div_ceil_good; lia|]. intros mc Hmc. cbv beta in Hmc.
-  eapply good_bind; [apply div_ceil_good; lia|]. intros mr Hmr. cbv beta in Hmr.
-  eapply good_bind; [apply bl_comp_allocs_good; auto|]. intros _ _.
-  apply good_ret. unfold bpost, BInv; bsimpl. repeat split; auto; lia.
+  eapply good_bind; [apply div_ceil_good; lia|]. intros mc (Hmc & Hmc2).
+  eapply good_bind; [apply div_ceil_good; lia|]. intros mr (Hmr & Hmr2).
+  eapply good_bind.
+  { eapply good_weaken; [apply bl_comp_allocs_good with (w := be16j d 3) (h := be16j d 1) (mh := mh) (mv := mv); auto; lia|lia|intros a Ha; exact Ha]. }
+  intros _ _.
+  assert (Hne : cs <> []) by (intros E; rewrite E in Zc; unfold zlen in Zc; simpl in Zc; lia).
+  apply good_ret. unfold bpostR, BInv, bframeless, bframeS; bsimpl.
+  split.
+  { split; [split; [lia|]|auto].
+    split; [lia|]. split; [lia|]. exists mh, mv. split; [lia|]. split; [lia|]. split; [exact F|].
+    split; [intros _; lia|]. destruct (Z.eqb_spec (be16j d 3) 0); [lia|]. cbn [andb]. discriminate. }
+  split; [rewrite F1, F2; reflexivity|]. split.
+  { destruct (Z.eqb_spec (be16j d 3) 0); [lia|]. reflexivity. }
+  rewrite ES, Zc. lia.
 Qed.
 
-Lemma bl_dqt_loop_good : forall g fuel data, (length data < fuel)%nat -> good g BB (fun _ => True) (bl_dqt_loop fuel data).
+Lemma bl_sof_framed : forall st bs, bytes bs -> bframeless st = false -> good true 65536 (fun _ => False) (bl_parse_sof st bs).
 Proof.
-  intros g fuel. induction fuel as [|k IH]; intros data Hf; [lia|]. cbn [bl_dqt_loop].
+  intros st bs Hb Efl. unfold bl_parse_sof. rsegB Hb.
+  intros [d rest] _. cbn [fst snd].
+  destruct (zlen d <? 6); [apply good_err|].
+  unfold bframeless in Efl. apply andb_false_iff in Efl.
+  destruct (negb (b_w st =? 0) || negb (b_h st =? 0)) eqn:E; [apply good_err|].
+  apply orb_false_iff in E. destruct E as [F1 F2]. apply negb_false_iff in F1. apply negb_false_iff in F2.
+  destruct Efl; congruence.
+Qed.
+
+Lemma bl_dqt_loop_good : forall fuel data, (length data < fuel)%nat -> good true 65536 (fun _ => True) (bl_dqt_loop fuel data).
+Proof.
+  induction fuel as [|k IH]; intros data Hf; [lia|]. cbn [bl_dqt_loop].
   destruct data as [|pq r]; [apply good_ret; exact I|].
   destruct (3 <? pq mod 16); [apply good_err|].
   destruct (pq / 16 =? 0).
@@ -91,171 +154,192 @@ Proof.
   - destruct (zlen r <? 128); [apply good_err|]. apply IH. rewrite skipn_length. simpl in Hf. lia.
 Qed.
 
-Lemma bl_dqt_good : forall g bs, bytes bs ->
-  good g BB (fun r => bytes r /\ (length r <= length bs)%nat) (bl_parse_dqt bs).
+Lemma bl_dqt_good : forall bs, bytes bs ->
+  good true 65536 (fun r => bytes r /\ (length r <= length bs)%nat /\ r = seg_rest bs) (bl_parse_dqt bs).
 Proof.
-  intros g bs Hb. unfold bl_parse_dqt.
-  eapply good_bind.
-  { eapply good_weaken; [apply good_read_segment; exact Hb|unfold BB; rewrite maxAlloc_val; lia|intros a Ha; exact Ha]. }
-  intros [d rest] (Hd & Hrest & Hdl & Hlen). cbn [fst snd] in *.
+  intros bs Hb. unfold bl_parse_dqt. rsegB Hb.
+  intros [d rest] (Hd & Hrest & Hdl & Hlen & Ed & Er). cbn [fst snd] in *.
   eapply good_bind; [apply bl_dqt_loop_good; lia|]. intros _ _. apply good_ret. auto.
 Qed.
 
-Lemma bl_dri_good : forall g st bs, bytes bs -> BInv g st -> good g BB (bpost g bs) (bl_parse_dri st bs).
+Definition sameB (st st' : bst) : Prop := b_w st' = b_w st /\ b_h st' = b_h st /\ zlen (b_comps st') = zlen (b_comps st).
+
+Lemma bl_dri_good : forall st bs, bytes bs -> BInv st -> good true 65536 (fun x => bpostR bs x /\ sameB st (fst x)) (bl_parse_dri st bs).
 Proof.
-  intros g st bs Hb HI. unfold bl_parse_dri.
-  eapply good_bind.
-  { eapply good_weaken; [apply good_read_segment; exact Hb|unfold BB; rewrite maxAlloc_val; lia|intros a Ha; exact Ha]. }
-  intros [d rest] (Hd & Hrest & Hdl & Hlen). cbn [fst snd] in *.
+  intros st bs Hb HI. unfold bl_parse_dri. rsegB Hb.
+  intros [d rest] (Hd & Hrest & Hdl & Hlen & Ed & Er). cbn [fst snd] in *.
   destruct (negb (zlen d =? 2)); [apply good_err|].
-  apply good_ret. unfold bpost; cbn [fst snd]. split; [|auto].
-  destruct HI as (I1 & I2 & I3 & I4 & I5 & I6 & I7). unfold BInv; bsimpl. tauto.
+  apply good_ret. unfold bpostR, sameB; bsimpl. split; [|auto]. split; [|auto].
+  destruct HI as (I1 & I2 & I3 & I4). unfold BInv; bsimpl. auto.
 Qed.
 
-Lemma set_sel_ok : forall g cs id td ta cs', Forall (comp_ok g) cs -> (g = true -> 0 <= td <= 3) ->
-  set_sel cs id td ta = Some cs' -> Forall (comp_ok g) cs' /\ zlen cs' = zlen cs /\ (cs <> [] -> cs' <> []).
+Lemma set_sel_ok : forall mh mv cs id td ta cs', Forall (comp_ok mh mv) cs -> 0 <= td <= 3 ->
+  set_sel cs id td ta = Some cs' -> Forall (comp_ok mh mv) cs' /\ zlen cs' = zlen cs.
 Proof.
-  intros g cs. induction cs as [|c r IH]; intros id td ta cs' F Ht E; cbn [set_sel] in E; [discriminate|].
+  intros mh mv cs. induction cs as [|c r IH]; intros id td ta cs' F Ht E; cbn [set_sel] in E; [discriminate|].
   inversion F as [|? ? Hc Fr]; subst.
   destruct (bc_id c =? id).
-  - inversion E; subst. split; [|split; [unfold zlen; simpl; lia|congruence]].
-    constructor; [|auto]. destruct Hc as (A & B & _). unfold comp_ok; simpl. auto.
+  - inversion E; subst. split; [|unfold zlen; simpl; lia].
+    constructor; [|auto]. destruct Hc as (A & B & _). unfold comp_ok; bsimpl. auto.
   - destruct (set_sel r id td ta) as [r'|] eqn:Er; [|discriminate]. inversion E; subst.
-    destruct (IH _ _ _ _ Fr Ht Er) as (F' & Z' & _).
-    split; [constructor; auto|]. split; [unfold zlen in *; simpl; lia|congruence].
+    destruct (IH _ _ _ _ Fr Ht Er) as (F' & Z').
+    split; [constructor; auto|]. unfold zlen in *; simpl; lia.
 Qed.
 
-Lemma bl_sos_comps_good : forall g data k i cs, bytes data -> 0 <= i -> 1 + (i + Z.of_nat k) * 2 <= zlen data ->
-  Forall (comp_ok g) cs ->
-  good g BB (fun cs' => Forall (comp_ok g) cs' /\ zlen cs' = zlen cs) (bl_sos_comps g data k i cs).
+Lemma bl_sos_comps_good : forall mh mv data k i cs, bytes data -> 0 <= i -> 1 + (i + Z.of_nat k) * 2 <= zlen data ->
+  Forall (comp_ok mh mv) cs ->
+  good true 65536 (fun cs' => Forall (comp_ok mh mv) cs' /\ zlen cs' = zlen cs) (bl_sos_comps data k i cs).
 Proof.
-  intros g data k. induction k as [|k IH]; intros i cs Hb Hi Hl F; cbn [bl_sos_comps].
+  intros mh mv data k. induction k as [|k IH]; intros i cs Hb Hi Hl F; cbn [bl_sos_comps].
   - apply good_ret. auto.
   - eapply good_bind; [apply good_idx; lia|]. intros c _.
     eapply good_bind; [apply good_idx; lia|]. intros t Ht. cbv beta in Ht.
     assert (Htb : 0 <= t < 256) by (rewrite Ht; apply bytes_znth; auto).
     destruct (set_sel cs c (t / 16) (t mod 16)) as [cs'|] eqn:Es; [|apply good_err].
-    destruct (g && ((3 <? t / 16) || (3 <? t mod 16))) eqn:Eg; [apply good_err|].
-    assert (Htd : g = true -> 0 <= t / 16 <= 3).
-    { intros ->. cbn [andb] in Eg. apply orb_false_iff in Eg. destruct Eg as [E1 _]. apply Z.ltb_ge in E1.
-      split; [apply Z.div_pos; lia|lia]. }
-    destruct (set_sel_ok g cs c (t / 16) (t mod 16) cs' F Htd Es) as (F' & Z' & N').
+    destruct ((3 <? t / 16) || (3 <? t mod 16)) eqn:Eg; [apply good_err|].
+    assert (Htd : 0 <= t / 16 <= 3).
+    { apply orb_false_iff in Eg. destruct Eg as [E1 _]. apply Z.ltb_ge in E1. split; [apply Z.div_pos; lia|lia]. }
+    destruct (set_sel_ok mh mv cs c (t / 16) (t mod 16) cs' F Htd Es) as (F' & Z').
     eapply good_weaken; [apply IH; [auto|lia|lia|exact F']|apply Z.le_refl|].
     intros cs2 (F2 & Z2). split; [auto|lia].
 Qed.
 
-Lemma bl_sos_good : forall g st bs, bytes bs -> BInv g st -> good g BB (bpost g bs) (bl_parse_sos g st bs).
+Lemma bl_sos_good : forall st bs, bytes bs -> BInv st ->
+  good true 65536 (fun x => bpostR bs x /\ sameB st (fst x) /\ b_comps (fst x) <> []) (bl_parse_sos st bs).
 Proof.
-  intros g st bs Hb HI. pose proof HI as (I1 & I2 & I3 & I4 & I5 & I6 & I7). unfold bl_parse_sos.
-  eapply good_bind.
-  { eapply good_weaken; [apply good_read_segment; exact Hb|unfold BB; rewrite maxAlloc_val; lia|intros a Ha; exact Ha]. }
-  intros [d rest] (Hd & Hrest & Hdl & Hlen). cbn [fst snd] in *.
+  intros st bs Hb HI. pose proof HI as (I1 & I2 & I3 & mh & mv & M1 & M2 & I4 & I5 & I6). unfold bl_parse_sos. rsegB Hb.
+  intros [d rest] (Hd & Hrest & Hdl & Hlen & Ed & Er). cbn [fst snd] in *.
   destruct (Z.ltb_spec (zlen d) 1); [apply good_err|].
   eapply good_bind; [apply good_idx; lia|]. intros ns Hns. cbv beta in Hns.
   assert (Hnsb : 0 <= ns < 256) by (rewrite Hns; apply bytes_znth; auto).
   destruct (Z.ltb_spec (zlen d) (1 + ns * 2 + 3)); [apply good_err|].
-  eapply good_bind; [apply bl_sos_comps_good; [auto|lia|rewrite Z2Nat.id by lia; lia|exact I4]|].
+  destruct ((zlen (b_comps st) =? 0) || (ns =? 0)) eqn:E0; [apply good_err|].
+  apply orb_false_iff in E0. destruct E0 as [E0 _]. apply Z.eqb_neq in E0.
+  eapply good_bind; [apply bl_sos_comps_good with (mh := mh) (mv := mv); [auto|lia|rewrite Z2Nat.id by lia; lia|exact I4]|].
   intros cs (F & Zc).
-  assert (Hne : cs <> [] -> b_comps st <> []).
-  { intros Hc E. rewrite E in Zc. destruct cs; [congruence|]. unfold zlen in Zc; simpl in Zc. lia. }
-  apply good_ret. unfold bpost, BInv; bsimpl. repeat split; auto; try lia.
-  - apply I7; auto.
-  - apply I7; auto.
+  assert (Hne0 : b_comps st <> []) by (intros E; rewrite E in E0; unfold zlen in E0; simpl in E0; lia).
+  assert (Hne : cs <> []) by (intros E; rewrite E in Zc; unfold zlen in Zc; simpl in Zc; unfold zlen in E0; lia).
+  apply good_ret. unfold bpostR, sameB, BInv; bsimpl.
+  split; [|split; [auto|exact Hne]].
+  split; [|auto]. split; [lia|]. split; [lia|]. split; [lia|].
+  exists mh, mv. split; [lia|]. split; [lia|]. split; [exact F|]. split; [intros _; apply I5; exact Hne0|].
+  intros C. specialize (I6 C). congruence.
 Qed.
 
-Lemma good_false_pure : forall {A} B (m : M A), snd m = [] /\ fst m <> OutOfFuel -> good false B (fun _ => True) m.
-Proof. intros A B m (E & F). unfold good. rewrite E. split; [discriminate|]. split; [exact F|]. split; [constructor|auto]. Qed.
-
-Lemma bl_scan_start_good : forall g st rest, BInv g st -> good g (Z.max BB (4 * zlen rest + 512)) (fun _ => True) (bl_scan_start g st rest).
+Lemma bl_scan_start_good : forall st rest, BInv st -> b_comps st <> [] ->
+  good true (2 * zlen rest + 512) (fun _ => True) (bl_scan_start st rest).
 Proof.
-  intros g st rest (I1 & I2 & I3 & I4 & I5 & I6 & I7). unfold bl_scan_start.
+  intros st rest (I1 & I2 & I3 & mh & mv & M1 & M2 & I4 & I5 & I6) Hne. unfold bl_scan_start.
+  pose proof (zlen_nonneg rest).
+  destruct (I5 Hne) as (E1 & E2 & W1 & W2).
   eapply good_bind; [apply good_note with (post := fun _ => True); [lia|exact I]|]. intros _ _.
-  destruct g; cbn [andb].
-  - (* with the checks *)
-    destruct (Z.eqb_spec (zlen (b_comps st)) 0); [apply good_err|].
-    assert (Hne : b_comps st <> []) by (intros E; rewrite E in n; unfold zlen in n; simpl in n; lia).
-    destruct (I7 Hne) as [M1 M2].
-    eapply good_bind; [eapply good_weaken; [apply div_ceil_good; lia|lia|intros a Ha; exact Ha]|]. intros mc _.
-    eapply good_bind; [eapply good_weaken; [apply div_ceil_good; lia|lia|intros a Ha; exact Ha]|]. intros mr _.
-    destruct ((mc <=? 0) || (mr <=? 0)); [apply good_ret; exact I|].
-    destruct (b_comps st) as [|c r]; [apply good_ret; exact I|].
-    inversion I4 as [|? ? (C1 & C2 & C3) Fr]; subst. specialize (C3 eq_refl).
-    destruct (Z.ltb_spec (bc_td c) 0); [lia|]. destruct (Z.leb_spec 4 (bc_td c)); [lia|]. cbn [orb].
-    destruct (negb (nth (Z.to_nat (bc_td c)) (b_dc st) false)); [apply good_err|apply good_ret; exact I].
-  - (* the code as it stands may panic here; only fuel and request sizes are claimed *)
-    apply good_false_pure.
-    unfold div_ceil, bind, pan, ret, err.
-    destruct (b_comps st) as [|c r];
-      repeat match goal with |- context [if ?b then _ else _] => destruct b; cbn [fst snd app] end;
-      split; (reflexivity || discriminate).
+  eapply good_bind; [apply good_note with (post := fun _ => True); [lia|exact I]|]. intros _ _.
+  rewrite E1, E2.
+  eapply good_bind; [apply div_ceil_good; lia|]. intros mc _.
+  eapply good_bind; [apply div_ceil_good; lia|]. intros mr _.
+  destruct ((mc <=? 0) || (mr <=? 0)); [apply good_ret; exact I|].
+  destruct (b_comps st) as [|c r]; [apply good_ret; exact I|].
+  inversion I4 as [|? ? (C1 & C2 & C3) Fr]; subst.
+  destruct (Z.ltb_spec (bc_td c) 0); [lia|]. destruct (Z.leb_spec 4 (bc_td c)); [lia|]. cbn [orb].
+  destruct (negb (nth (Z.to_nat (bc_td c)) (b_dc st) false)); [apply good_err|apply good_ret; exact I].
 Qed.
 
-Lemma bl_out_alloc_good : forall g st, BInv g st -> good g BB (fun _ => True) (bl_out_alloc st).
+Lemma bl_out_alloc_good : forall st, BInv st -> good true (bframeS st + 65536) (fun _ => True) (bl_out_alloc st).
 Proof.
-  intros g st (I1 & I2 & I3 & I4 & I5 & I6 & I7). unfold bl_out_alloc.
+  intros st (I1 & I2 & I3 & _). unfold bl_out_alloc, bframeS.
   pose proof (zlen_nonneg (b_comps st)).
   assert (0 <= b_w st * b_h st <= 65535 * 65535)
     by (split; [apply Z.mul_nonneg_nonneg; lia | apply Z.mul_le_mono_nonneg; lia]).
   assert (0 <= b_w st * b_h st * zlen (b_comps st) <= 65535 * 65535 * 3)
     by (split; [apply Z.mul_nonneg_nonneg; lia | apply Z.mul_le_mono_nonneg; lia]).
-  apply good_alloc; [lia|unfold BB|unfold BB|exact I]; try rewrite maxAlloc_val; lia.
+  apply good_alloc; [lia|rewrite maxAlloc_val; lia|lia|exact I].
 Qed.
 
-Lemma bl_loop_good : forall g fuel st bs, bytes bs -> BInv g st -> (length bs < fuel)%nat ->
-  loopQ g (bl_loop g fuel st bs).
+Lemma bl_loop_good : forall fuel st bs Sx, bytes bs -> BInv st -> (length bs < fuel)%nat -> 0 <= Sx ->
+  (bframeless st = true -> frame_S 192 fuel bs <= Sx) -> (bframeless st = false -> bframeS st <= Sx) ->
+  aloopP Sx 64 bs (bl_loop fuel st bs).
 Proof.
-  intros g fuel. induction fuel as [|k IH]; intros st bs Hb HI Hf; [lia|].
-  cbn [bl_loop].
-  destruct (read_marker bs) as [[m r]| | |] eqn:EM; try apply loopQ_err.
+  induction fuel as [|k IH]; intros st bs Sx Hb HI Hf HS H1 H2; [lia|].
+  assert (HfS : bframeS st <= Sx).
+  { destruct (bframeless st) eqn:E; [rewrite (bframeless_S st E); exact HS|apply H2; reflexivity]. }
+  cbn [bl_loop]. cbn [frame_S] in H1.
+  destruct (read_marker bs) as [[m r]| | |] eqn:EM; try apply aloopP_err.
   destruct (read_marker_ok _ _ _ EM) as [Hl Hbb]. destruct (Hbb Hb) as [Hr Hm].
-  destruct (m =? 192).
-  { eapply loopQ_bind; [apply bl_sof_good; auto|].
-    intros [st' rest] (P1 & P2 & P3). cbn [fst snd] in *. apply IH; auto. lia. }
-  destruct (m =? 219).
-  { eapply loopQ_bind; [apply bl_dqt_good; auto|]. intros r2 (P2 & P3). apply IH; auto. lia. }
-  destruct (m =? 196).
-  { eapply loopQ_bind; [apply parse_dht_good; auto|].
-    intros [[dc ac] rest] (P2 & P3). cbn [fst snd] in *. apply IH; [exact P2| |lia].
-    destruct HI as (I1 & I2 & I3 & I4 & I5 & I6 & I7). unfold BInv; bsimpl. tauto. }
-  destruct (m =? 221).
-  { eapply loopQ_bind; [apply bl_dri_good; auto|].
-    intros [st' rest] (P1 & P2 & P3). cbn [fst snd] in *. apply IH; auto. lia. }
-  destruct (m =? 218).
-  { eapply loopQ_bind; [apply bl_sos_good; auto|].
-    intros [st' rest] (P1 & P2 & P3). cbn [fst snd] in *.
-    eapply loopQ_bind; [apply bl_scan_start_good; auto|]. intros _ _.
-    eapply loopQ_bind; [apply bl_out_alloc_good; eauto|]. intros _ _. apply loopQ_ret. }
-  destruct (m =? 217).
-  { eapply loopQ_bind; [apply bl_out_alloc_good; eauto|]. intros _ _. apply loopQ_ret. }
-  destruct (has_length m).
-  { eapply loopQ_bind; [apply good_read_segment; exact Hr|].
-    intros [d rest] (P1 & P2 & P3 & P4). cbn [fst snd] in *. apply IH; auto. lia. }
+  assert (Hzl : zlen r <= zlen bs) by (unfold zlen; lia).
+  pose proof (zlen_nonneg bs) as Hz0.
+  destruct (m =? 192) eqn:E192.
+  { destruct (bframeless st) eqn:Efl.
+    - specialize (H1 eq_refl).
+      eapply aloopP_bind; [apply bl_sof_good; auto|nia|].
+      intros [st' rest] ((P1 & P2 & P3 & P4) & F0 & F1 & F2). cbn [fst snd] in *.
+      eapply aloopP_mono with (S' := Sx) (bs' := rest); [lia|lia|unfold zlen; lia|].
+      apply IH; auto; [lia| |].
+      + intros C. rewrite F1 in C. discriminate.
+      + intros _. rewrite F2. exact H1.
+    - eapply aloopP_bind; [apply bl_sof_framed; auto|nia|]. intros a []. }
+  destruct (m =? 219) eqn:E219.
+  { eapply aloopP_bind; [apply bl_dqt_good; auto|nia|]. intros r2 (P2 & P3 & P4).
+    eapply aloopP_mono with (S' := Sx) (bs' := r2); [lia|lia|unfold zlen; lia|].
+    apply IH; auto; [lia|]. intros C. rewrite P4. apply Z.eqb_eq in E219. subst m. cbn in H1. apply H1; exact C. }
+  destruct (m =? 196) eqn:E196.
+  { eapply aloopP_bind; [apply parse_dht_good; auto|nia|].
+    intros [[dc ac] rest] (P2 & P3 & P4). cbn [fst snd] in *.
+    eapply aloopP_mono with (S' := Sx) (bs' := rest); [lia|lia|unfold zlen; lia|].
+    apply IH; [exact P2| |lia|exact HS| |].
+    - destruct HI as (I1 & I2 & I3 & I4). unfold BInv; bsimpl. auto.
+    - unfold bframeless; bsimpl. intros C. rewrite P4.
+      apply Z.eqb_eq in E196. subst m. cbn in H1. apply H1. exact C.
+    - unfold bframeless, bframeS; bsimpl. exact H2. }
+  destruct (m =? 221) eqn:E221.
+  { eapply aloopP_bind; [apply bl_dri_good; auto|nia|].
+    intros [st' rest] ((P1 & P2 & P3 & P4) & (A1 & A2 & A3)). cbn [fst snd] in *.
+    assert (Hfl : bframeless st' = bframeless st) by (unfold bframeless; rewrite A1, A2; reflexivity).
+    eapply aloopP_mono with (S' := Sx) (bs' := rest); [lia|lia|unfold zlen; lia|].
+    apply IH; auto; [lia| |].
+    - rewrite Hfl. intros C. rewrite P4. apply Z.eqb_eq in E221. subst m. cbn in H1. apply H1; exact C.
+    - rewrite Hfl. intros C. unfold bframeS. rewrite A1, A2, A3. apply H2; exact C. }
+  destruct (m =? 218) eqn:E218.
+  { eapply aloopP_bind; [apply bl_sos_good; auto|nia|].
+    intros [st' rest] ((P1 & P2 & P3 & P4) & (A1 & A2 & A3) & Hne). cbn [fst snd] in *.
+    assert (zlen rest <= zlen bs) by (unfold zlen; lia).
+    eapply aloopP_bind; [apply bl_scan_start_good; auto|nia|]. intros _ _.
+    eapply aloopP_bind; [apply bl_out_alloc_good; exact P1| |intros _ _; apply aloopP_ret].
+    unfold bframeS in *. rewrite A1, A2, A3. nia. }
+  destruct (m =? 217) eqn:E217.
+  { eapply aloopP_bind; [apply bl_out_alloc_good; exact HI|nia|intros _ _; apply aloopP_ret]. }
+  cbn [orb] in H1.
+  destruct (has_length m) eqn:EL.
+  { eapply aloopP_bind; [eapply good_weaken; [apply good_read_segment'; exact Hr|apply Z.le_refl|intros a Ha; exact Ha]|nia|].
+    intros [d rest] (P1 & P2 & P3 & P4 & P5 & P6). cbn [fst snd] in *.
+    eapply aloopP_mono with (S' := Sx) (bs' := rest); [lia|lia|unfold zlen; lia|].
+    apply IH; auto; [lia|]. intros C. rewrite P6. apply H1. exact C. }
+  eapply aloopP_mono with (S' := Sx) (bs' := r); [lia|lia|exact Hzl|].
   apply IH; auto. lia.
 Qed.
 
-Lemma bl_decode_loopQ : forall g bs, bytes bs -> loopQ g (bl_decode g (fuel_of bs) bs).
+Lemma bl_decode_aloopP : forall bs, bytes bs -> aloopP (frame_declared 192 bs) 64 bs (bl_decode (fuel_of bs) bs).
 Proof.
-  intros g bs Hb. unfold bl_decode.
-  destruct (read_marker bs) as [[m r]| | |] eqn:EM; try apply loopQ_err.
+  intros bs Hb. unfold bl_decode, frame_declared.
+  destruct (read_marker bs) as [[m r]| | |] eqn:EM; try apply aloopP_err.
   destruct (read_marker_ok _ _ _ EM) as [Hl Hbb]. destruct (Hbb Hb) as [Hr Hm].
-  destruct (m =? 216); [|apply loopQ_err].
-  apply bl_loop_good; auto; [apply BInv0|unfold fuel_of; lia].
+  destruct (m =? 216); [|apply aloopP_err].
+  eapply aloopP_mono with (S' := frame_S 192 (fuel_of bs) r) (bs' := r); [lia|lia|unfold zlen; lia|].
+  apply bl_loop_good; auto.
+  - apply BInv0.
+  - unfold fuel_of; lia.
+  - apply frame_S_nonneg; auto.
+  - intros _. lia.
+  - intros C. discriminate.
 Qed.
 
-(* with the checks (Tq, Td, Ta <= 3; no scan without a frame header; Build validates its table)
-   the baseline header path, up to the first Huffman table lookup of the scan, never panics *)
-Theorem bl_decode_no_panic : forall bs, bytes bs -> fst (bl_decode true (fuel_of bs) bs) <> Panic.
-Proof. intros bs Hb. apply (bl_decode_loopQ true bs Hb). reflexivity. Qed.
-
-Theorem bl_decode_fuel : forall g bs, bytes bs -> fst (bl_decode g (fuel_of bs) bs) <> OutOfFuel.
-Proof. intros g bs Hb. apply (bl_decode_loopQ g bs Hb). Qed.
-
-(* as the code stands: (a) SOS with Ns = 0 before any SOF0 -> DivCeil(0, 0);
-   (b) SOF0 1x1, SOS selecting DC table 4 -> dcTables[4] *)
-Definition bl_nosof_witness : list Z := [255; 216; 255; 218; 0; 6; 0; 0; 0; 0].
-Definition bl_td_witness : list Z :=
-  [255; 216; 255; 192; 0; 11; 8; 0; 1; 0; 1; 1; 1; 17; 0; 255; 218; 0; 8; 1; 1; 64; 0; 0; 0].
-Theorem bl_decode_panics_refuted_no_frame : bytes bl_nosof_witness /\ fst (bl_decode false (fuel_of bl_nosof_witness) bl_nosof_witness) = Panic.
-Proof. split; [unfold bytes, bl_nosof_witness; repeat constructor; lia|vm_compute; reflexivity]. Qed.
-Theorem bl_decode_panics_refuted_selector : bytes bl_td_witness /\ fst (bl_decode false (fuel_of bl_td_witness) bl_td_witness) = Panic.
-Proof. split; [unfold bytes, bl_td_witness; repeat constructor; lia|vm_compute; reflexivity]. Qed.
+(* F42/F43: Tq, Td, Ta are validated and a scan needs a frame: the baseline header path, up to the
+   first Huffman table lookup of the scan, does not panic for any byte string (historical witnesses:
+   ff d8 ff da 00 06 00 00 00 00 -> DivCeil(0,0); SOF0 1x1 + SOS with Td = 4 -> dcTables[4]) *)
+Theorem bl_decode_no_panic : forall bs, bytes bs -> fst (bl_decode (fuel_of bs) bs) <> Panic.
+Proof. intros bs Hb. apply (bl_decode_aloopP bs Hb). Qed.
+Theorem bl_decode_fuel : forall bs, bytes bs -> fst (bl_decode (fuel_of bs) bs) <> OutOfFuel.
+Proof. intros bs Hb. apply (bl_decode_aloopP bs Hb). Qed.
+(* block buffers are requested while parsing SOF0: at most 63*w*h + 961 bytes per component *)
+Theorem bl_decode_alloc : forall bs, bytes bs ->
+  Forall (fun a => a <= 64 * frame_declared 192 bs + 2 * zlen bs + 65536) (snd (bl_decode (fuel_of bs) bs)).
+Proof. intros bs Hb. apply (bl_decode_aloopP bs Hb). Qed.
